@@ -63,7 +63,13 @@ SETKW = ["osf"]          # options a user may write into the public attribute Di
 # ----------------------------------------------------------------------------------------------
 # nets with deliberate problems
 # ----------------------------------------------------------------------------------------------
-def _mk_net(overload):
+NNETS = 3
+
+
+def _mk_net(kind):
+    """kind: 'ok' (converges), 'overload' (does not converge, cured by scaling the loads down), 'uncurable' (does not
+    converge and NO stage of the overload / capacitance / switch checks cures it: constant-power ward)"""
+    overload = kind == "overload"
     net = pp.create_empty_network(sn_mva=1.)
     b = [pp.create_bus(net, 20.) for _ in range(3)] + [pp.create_bus(net, 0.4), pp.create_bus(net, 0.4),
                                                         pp.create_bus(net, 20.)]
@@ -79,6 +85,8 @@ def _mk_net(overload):
     pp.create_load(net, b[3], 0.1, .0)                                            # disconnected bus with a load
     pp.create_gen(net, b[1], 0.2, 1.0)
     pp.create_sgen(net, b[2], 0.1)
+    if kind == "uncurable":
+        pp.create_ward(net, b[2], 5000., 0., 0., 0.)
     try:
         pp.runpp(net)    # result tables hold the net's own power flow (or its failure) before any diagnosis
     except Exception:
@@ -92,7 +100,7 @@ _NETS = None
 def nets():
     global _NETS
     if _NETS is None:
-        _NETS = [_mk_net(False), _mk_net(True)]
+        _NETS = [_mk_net("ok"), _mk_net("overload"), _mk_net("uncurable")][:NNETS]
     return copy.deepcopy(_NETS)
 
 
@@ -266,11 +274,11 @@ def all_reference_configs(max_regs, kwnames, legacy_kw):
         for r in range(0, max_regs + 1):
             for regs in itertools.permutations(FUNCS, r):
                 for kwname in kwnames:
-                    for j in (0, 1):
+                    for j in range(NNETS):
                         for ikw in ([], list(SETKW)):
                             cfgs.append(["diag", adf, list(regs), kwname, j, ikw])
     for kwname in legacy_kw:
-        for j in (0, 1):
+        for j in range(NNETS):
             cfgs.append(["legacy", True, [], kwname, j, []])
     return cfgs
 
@@ -340,9 +348,9 @@ class Model:
         for i in range(len(s.insts)):
             out += [["setkw", i, k] for k in SETKW if k not in s.ikw[i]]
         for i in range(len(s.insts)):
-            for j in (0, 1):
+            for j in range(NNETS):
                 out += [["diag", i, j, k] for k in self.kwnames]
-        for j in (0, 1):
+        for j in range(NNETS):
             out += [["legacy", j, k] for k in self.legacy_kw]
         return out
 
